@@ -413,7 +413,7 @@ class C13(common.Prop):
     vo_deps = ['theories/Frag/StripCheck.vo']
     prop_file = 'theories/Properties/C13.v'
     case_requires = ('From Coq Require Import String.\nFrom Coq Require Import List Ascii ZArith Bool.\n'
-                     'From CGV Require Import Base.PyBase Base.PyVal Frag.NDict Frag.StripImpl Frag.FragText Frag.SmilesParse Frag.Template Frag.StripCheck.')
+                     'From CGV Require Import Base.PyBase Base.PyVal Frag.NDict Frag.StripImpl Frag.FragText Frag.SmilesParse Frag.Template Frag.TemplateFinal Frag.StripCheck.')
     quick_cases = 2400
     thorough_cases = 40000
     extended_cases = 12000
@@ -476,7 +476,8 @@ class C13(common.Prop):
                  'C1CC1C1CC1', 'C12CC1C2', '']]
         out += [{'kind': 'template', 'name': 'PEO', 'text': t} for t in
                 ['[$]COC[$]', '[>]CC(/F)=C(\\F)C[<]', '[$]C[O;0.5]C[$][$1]', 'c1ccccc1[$]', 'C=1[$]CC=1', 'C.[$]', '[$]=C[NH3+]',
-                 'OC[!][!]', '[H;0.3]C[$]O[C;0.5][$]', '[$]CO[C;0.5][$]([H;0.1])[H;0.2]', 'C[H]', 'Cl[$]']]
+                 'OC[!][!]', '[H;0.3]C[$]O[C;0.5][$]', '[$]CO[C;0.5][$]([H;0.1])[H;0.2]', 'C[H]', 'Cl[$]', '[H][$]', '[Na+]',
+                 'C', '[$]c1ccccc1C(=O)[O-]', 'c1ccncc1[$]', 'O=S(=O)(O)C[$]', 'C#[N+][$]', 'CS(C)(C)C', 'FC(F)(F)[$]']]
         out += [{'kind': 'split', 'text': t} for t in
                 ['{#A=[$]CC[$],#B=[$]OC}', '{#A=CC}', '{}', '{#A}', '{#A=C=C,#B=[C;x=R]}', '', '{', '{#A=C,}']]
         return out
@@ -578,8 +579,7 @@ class C13(common.Prop):
             try:
                 pairs = list(rf.fragment_iter('{#%s=%s}' % (case['name'], case['text']), all_atom=True))
                 (fname, g), = pairs
-                skip = ('hcount', 'rs_isomer', '_pos', '_atom_str', 'atomname', 'ez_isomer_class', 'single_h_frag',
-                        'ez_isomer_atoms')
+                skip = ('rs_isomer', '_pos', '_atom_str')
                 out['nodes'] = [[n, {k: v for k, v in d.items() if k not in skip}] for n, d in g.nodes(data=True)]
                 out['edges'] = [[u, v, d.get('order')] for u, v, d in g.edges(data=True)]
                 if fname != case['name'] or any((not isinstance(n, int)) or n < 0 for n, _ in out['nodes']):
